@@ -111,6 +111,9 @@ type VerifSnapshot[K comparable, V any] struct {
 	Status                                                                    VerifStatus
 	Sketch                                                                    string
 	Adjust                                                                    string
+	SketchSize, SketchSample                                                  uint64 // increments since the last aging step / period
+	PrevHitRate                                                               float64
+	WriteBufferCap                                                            int
 }
 
 func (c *Cache[K, V]) VerifSnapshot() VerifSnapshot[K, V] {
@@ -141,6 +144,7 @@ func (c *Cache[K, V]) VerifSnapshot() VerifSnapshot[K, V] {
 			}
 			s.Sketch = fmt.Sprintf("len=%d size=%d sample=%d h=%x", len(p.sketch.table), p.sketch.size, p.sketch.sampleSize, h)
 		}
+		s.SketchSize, s.SketchSample, s.PrevHitRate = p.sketch.size, p.sketch.sampleSize, p.previousSampleHitRate
 		s.Adjust = fmt.Sprintf("step=%v adj=%d hits=%d misses=%d prev=%v", p.stepSize, p.adjustment, p.hitsInSample, p.missesInSample, p.previousSampleHitRate)
 	}
 	if cc.withExpiration {
